@@ -243,6 +243,11 @@ func inspect(ctx *pbt.Ctx, s *bscript.Script, script []byte, how string) (*answe
 		if addrErr != nil || len(addrs) != 1 || addrs[0] == "" {
 			return nil, fmt.Errorf("Addresses(%s) = %v, %v; one address expected", short(script), addrs, addrErr)
 		}
+		// Addresses and PublicKeyHash must agree: the address is the mainnet Base58Check rendering of
+		// that very hash (independent reference of C15)
+		if want := ref.B58CheckEncode(0x00, script[3:23]); addrs[0] != want {
+			return nil, fmt.Errorf("Addresses(%s) = %v, the address of the hash %x the script carries is %s", short(script), addrs, script[3:23], want)
+		}
 	}
 	// inscription parsing
 	if inscErr == nil {
